@@ -453,11 +453,16 @@ def run(ctx):
     for part in common.pmap(work, tasks):
         acc += part
     ctx.layer('dssp2cg', acc)
+    from props import c17_cli
+    c17_cli.run_layer(ctx)
 
 
 def replay(case):
     common.bind_repo()
     acc = Acc()
+    if case['layer'] == 'cli':
+        from props import c17_cli
+        return c17_cli.replay(case)
     if case['layer'] == 'history':
         check_history([tuple(o) for o in case['ops']], acc)
     elif case['layer'] == 'assign':
